@@ -156,6 +156,14 @@ theorem shapeOffsets_eq (shape : Nat × Nat) (s centre : α × α) (p : Nat × N
   · field_simp; ring
   · field_simp; ring
 
+/-- pixel `(i, j)` is unmasked iff the constructor's test holds at `(−dy, dx)` -/
+theorem shapeMask_unmasked_iff (shape : Nat × Nat) (s centre : α × α) (test : α → α → Bool)
+    (hs1 : s.1 ≠ 0) (hs2 : s.2 ≠ 0) {i j : Nat} (hi : i < shape.1) (hj : j < shape.2) {dy dx : α}
+    (hd : Spec.centreOffset shape s centre (i, j) = (dy, dx)) :
+    (Impl.shapeMask shape s centre test).get i j = false ↔ test (-dy) dx = true := by
+  rw [shapeMask_get shape s centre test hi hj, shapeOffsets_eq shape s centre (i, j) hs1 hs2, hd]
+  simp
+
 theorem sqrtLe_iff (d a : α) : Impl.sqrtLe d a = true ↔ (0 ≤ a ∧ d ≤ a * a) := by
   simp [Impl.sqrtLe]
 
